@@ -38,6 +38,9 @@ CHECKS["C10"] = ("model_checking", "E2", "exhaustive enumeration of (function sp
 CHECKS["C11"] = ("exploration", "E1", "bounded exhaustive enumeration of (function, seed argument list, injection) triples; Call / ReturnTypeForValues / ReturnType run on each and related by a structural conformance model",
   "All 80 exported stdlib functions and MakeToFunc for 10 target types x every seed argument list (full product of per-position alphabets incl. per-function dictionaries of format strings, patterns, timestamps, JSON/CSV documents, boundary numbers; variadic lengths 0..2, thorough 0..3) x every injection of null, null-of-dynamic, unknown, refined unknown, DynamicVal or a mark at one argument or one nested member (thorough: all pairs of argument-level injections): no Go panic and no PanicError from Call, ReturnType or ReturnTypeForValues; a successful call's type conforms to both predictions; the value-based prediction never rejects a successful call and the type-only prediction never rejects a call that succeeds on wholly known arguments.",
   "trusted: TS conformance model; bound: the seed alphabets (stdfn.go), <=1 (thorough <=2) injected positions, nesting depth<=2; count-like numbers avoid (1025, 2^62)", "§3 C11")
+CHECKS["C12"] = ("exploration", "E1", "bounded exhaustive enumeration of (function, successful wholly known argument list, weakening) triples; abstract run compared with the concrete run and with further concretisations through a reference concretisation relation",
+  "Every stdlib function of the C11 table x every wholly known seed argument list on which the call succeeds x every replacement of one argument or one nested member by a typed unknown (bare, not-null, or with numeric-bound / prefix / length refinements true of the replaced part; thorough: pairs of replacements in two arguments): the weakened call must succeed and its result must admit the concrete result (type, nullness, bounds, prefix, length, every known part) and the concrete results of up to 3 other values the unknown admits; wholly known arguments give wholly known results.",
+  "trusted: admits() with the documented number equality at range ends; bound: seed alphabets of stdfn.go, one (thorough two) weakened positions, depth<=2", "§3 C12")
 NOT_YET = {}
 props = [json.loads(l) for l in open('/verif/properties.jsonl')]
 checks = []
